@@ -82,6 +82,25 @@ func runC14(cx *Ctx, r *Report) {
 			}
 			r.check(ok, "class-owner-guard", key, pos, "signer equals the recorded class creator before UpdateClass ("+f.String()+")",
 				"UpdateClass reachable without comparing the declared signer with the class creator on chain "+ev.Fr.String())
+			// a class update carries the restriction flags of the stored class over unchanged:
+			// a flag that is dropped from the rebuilt metadata reads as false afterwards and
+			// the restriction silently stops applying to the class's tokens
+			if st := findSub(ev.Args[len(ev.Args)-1], func(t *Term) bool { return t.Op == "struct" && t.Name == "DenomMetadata" }); st != nil {
+				got := map[string]string{}
+				for i := 0; i+1 < len(st.Args); i += 2 {
+					got[st.Args[i].Name] = st.Args[i+1].LooseString()
+				}
+				var bad []string
+				for _, fl := range []string{"MintRestricted", "UpdateRestricted"} {
+					v, has := got[fl]
+					if !has || !strings.HasSuffix(v, "."+fl) || strings.HasPrefix(v, "msg.") {
+						bad = append(bad, fl+"="+map[bool]string{true: v, false: "(unset)"}[has])
+					}
+				}
+				r.check(len(bad) == 0, "class-flags-kept", key, pos, "the updated class metadata copies MintRestricted and UpdateRestricted from the stored class", "UpdateClass writes class metadata whose restriction flags are not copied from the stored class ("+strings.Join(bad, ", ")+"): after this update the class is no longer restricted")
+			} else {
+				r.toolErr("UpdateClass at %s: class metadata literal not found in the argument", pos)
+			}
 		case "nft.SaveClass":
 			cls := ev.Args[len(ev.Args)-1]
 			st := findSub(cls, func(t *Term) bool { return t.Op == "struct" && t.Name == "DenomMetadata" })
